@@ -35,13 +35,14 @@ func Transact(db *gorm.DB, fnList ...GormProcFn) (err error) {
 		return
 	}
 
+	var completed bool
 	defer func() {
-		if err == nil {
+		if err == nil && !completed {
+			// a step did not return: it panicked - recover() yields nil for panic(nil) when the
+			// main module is below go 1.21 - or called runtime.Goexit; never commit then
 			var catch = recover()
-			if catch != nil {
-				ulog.Error("db.transaction.panic.error", zap.Stack("stack"))
-				err = fmt.Errorf("db.transaction.panic:%+v", catch)
-			}
+			ulog.Error("db.transaction.panic.error", zap.Stack("stack"))
+			err = fmt.Errorf("db.transaction.panic:%+v", catch)
 		}
 
 		if err != nil {
@@ -59,6 +60,7 @@ func Transact(db *gorm.DB, fnList ...GormProcFn) (err error) {
 			return
 		}
 	}
+	completed = true
 
 	return
 }
